@@ -50,6 +50,7 @@ class _Dummy:
         pass
 
 
+STRICT = [False]    # configuration `strict`: the tracker runs with warnings turned into errors (-W error)
 FAIL = [False]      # configuration `fail` of ResourceTracker.tla: every destruction attempt raises (after being recorded)
 
 
@@ -80,7 +81,7 @@ def _run_fd(r, calls, reports, st):
     crashed = None
     try:
         with warnings.catch_warnings(record=True) as ws:
-            warnings.simplefilter("always")
+            warnings.simplefilter("error" if STRICT[0] else "always")
             sys.stdin, sys.stdout = _Dummy(), _Dummy()
             try:
                 rt.main(r)
@@ -156,6 +157,7 @@ def main():
             n += 1
             if mode == "replay":
                 FAIL[0] = bool(case.get("fail"))
+                STRICT[0] = bool(case.get("strict"))
                 lb = [line_bytes(f) for f in case["lines"]]
                 per, order_eof, crashed, nread = observe(lb)
                 why = None
